@@ -104,7 +104,7 @@ def run(ctx):
         f = gen.rand_ctls_state(rnd, rnd.choice([2, 3]))
         if gen.size(f) <= 12 and gen.temporal_count(f) <= 5:
             fam_d.append({'K': gen.rand_kripke(rnd, rnd.choice([2, 3, 4, 5])), 'f': f,
-                          'naming': rnd.choice(['int', 'str', 'tuple']), 'shuf': rnd.randrange(1 << 30)})
+                          'naming': rnd.choice(['int', 'str', 'tuple', 'obj']), 'shuf': rnd.randrange(1 << 30)})
     # n-ary and/or (arity 3-4) directly under a quantifier, mixing state and path operands
     temporal = [g for g in gen.path_un(M0) + gen.path_bi(M0) if g[0] in 'XFGUR']
     temporal += [('not', g) for g in temporal[:10]] + [(o, g) for o in 'XFG' for g in temporal[:6]]
@@ -125,8 +125,10 @@ def run(ctx):
         a, b = rnd.choice(xn), rnd.choice(xn + M0 + gen.path_un(M0))
         g = rnd.choice([('G', a), ('and', b, a), ('or', a, b), ('U', b, a), ('F', ('and', a, b)), ('G', ('or', a, b)), ('R', a, b)])
         fam_x.append({'K': rnd.choice(scope3), 'f': (rnd.choice('AE'), g)})
-    fam_e = [dict(c, mode='text') for c in gen.samp(rnd, fam_a + fam_c + fam_n, 800 if q else 15000)]
-    fams = [('scope2', fam_a), ('catalogue3', fam_b), ('nested', fam_c), ('nary', fam_n), ('next-negation', fam_x), ('random', fam_d), ('text', fam_e)]
+    shp = gen.shared_polarity_formulas()
+    fam_s = [{'K': rnd.choice(scope3), 'f': (rnd.choice('AE'), g)} for g in shp for _ in range(2 if q else 10)]
+    fam_e = [dict(c, mode=rnd.choice(['text', 'raw'])) for c in gen.samp(rnd, fam_a + fam_c + fam_n, 1200 if q else 15000)]
+    fams = [('scope2', fam_a), ('catalogue3', fam_b), ('nested', fam_c), ('nary', fam_n), ('next-negation', fam_x), ('shared-polarity', fam_s), ('random', fam_d), ('text', fam_e)]
     for _, fam in fams:
         for c in fam:
             c['logic'] = 'CTLS'
